@@ -439,6 +439,7 @@ def run_check(prop, tier, verif_seed, nproc=None, max_wall=None, quiet=False):
         'simulated_seconds_covered': agg['vtime'],
         'context_switches': agg['nswitch'],
         'distinct_run_digests': len(digests),
+        'run_set_fingerprint': '%016x' % _xor(digests),     # order-independent: equal for any worker count
         'switch_edge_coverage': len(agg['edges']),
         'faults_fired_by_kind': dict(sorted(agg['faults'].items())),
         'probes_hit': dict(sorted(agg['probes'].items())),
@@ -484,6 +485,13 @@ def run_check(prop, tier, verif_seed, nproc=None, max_wall=None, quiet=False):
             print('HARNESS-ERROR:', e)
     sys.stdout.flush()
     return exit_code
+
+
+def _xor(ds):
+    x = 0
+    for d in ds:
+        x ^= d
+    return x
 
 
 def _jsonable(o):
